@@ -3,7 +3,8 @@
    The standards' known answers for every specification used below are checked in Crypto/CryptoKAT.v. *)
 From Coq Require Import List NArith ZArith Arith.
 From MV Require Import Crypto.CryptoPrims Crypto.CryptoSpec Crypto.CryptoModel Crypto.CryptoProofs Crypto.CryptoKAT
-                       Crypto.CryptoSym Crypto.CryptoSymModel Crypto.CryptoSymProofs.
+                       Crypto.CryptoSym Crypto.CryptoSymModel Crypto.CryptoSymProofs
+                       Crypto.CryptoDes Crypto.CryptoDesModel Crypto.CryptoDesProofs Crypto.CryptoLegacy Crypto.CryptoLegacyProofs.
 Import ListNotations.
 
 (* ---- digests: Init; Update(chunk_1); ...; Update(chunk_n); Final equals the one-shot FIPS 180-4 /
@@ -200,3 +201,72 @@ Print Assumptions c12_gcm_count_unfixed_refuted.
 Theorem c12_gcm_ready_resets : forall c iv aad, g_ocnt (gcm_ready c iv aad) = 0.
 Proof. exact gcm_ready_resets. Qed.
 Print Assumptions c12_gcm_ready_resets.
+
+(* ---- DES / TDEA / 3DES-EDE-CBC (crypto/symmetric/des3.c; FIPS 46-3, SP 800-67, SP 800-38A) *)
+(* FIPS 46-3: deciphering (K16..K1) inverts enciphering and conversely - every key, every 8-byte block *)
+Theorem c12_des_inverse : forall key b, length b = 8 -> good b ->
+  des_block true key (des_block false key b) = b /\ des_block false key (des_block true key b) = b.
+Proof. exact des_block_inverse. Qed.
+Print Assumptions c12_des_inverse.
+
+(* SP 800-67 + SP 800-38A: TDEA-CBC decryption recovers the plaintext - every key bundle, IV, whole blocks *)
+Theorem c12_des3_spec_inverse : forall key iv pt, length iv = 8 -> length pt mod 8 = 0 -> good iv -> good pt ->
+  des3_cbc_decrypt_spec key iv (des3_cbc_encrypt_spec key iv pt) = pt.
+Proof. exact des3_cbc_spec_inverse. Qed.
+Print Assumptions c12_des3_spec_inverse.
+
+(* KEY ORDER / DIRECTION of the model of psDes3InitKey + psDes3EncryptBlock / psDes3DecryptBlock, for every key and
+   block: encryption is E_K3(D_K2(E_K1(.))), decryption is D_K1(E_K2(D_K3(.))) with K1||K2||K3 the 24 key bytes,
+   where E_K / D_K are the code's own single-DES stages desfunc(deskey(K, EN0)) / desfunc(deskey(K, DE1)) *)
+Theorem c12_des3_key_order : forall key b,
+  ps_des3_encrypt_block (ps_des3_init_key key) b =
+    store_block (tdea_encrypt_spec (stage_enc (list N) (N * N) c_deskey c_desfunc) (stage_dec (list N) (N * N) c_deskey c_desfunc)
+                   (firstn 8 key) (firstn 8 (skipn 8 key)) (firstn 8 (skipn 16 key)) (load_block b)) /\
+  ps_des3_decrypt_block (ps_des3_init_key key) b =
+    store_block (tdea_decrypt_spec (stage_enc (list N) (N * N) c_deskey c_desfunc) (stage_dec (list N) (N * N) c_deskey c_desfunc)
+                   (firstn 8 key) (firstn 8 (skipn 8 key)) (firstn 8 (skipn 16 key)) (load_block b)).
+Proof. exact ps_des3_block_key_order. Qed.
+Print Assumptions c12_des3_key_order.
+
+(* CBC chaining, IV carried across calls, in place = out of place - every key, IV, cut of whole blocks *)
+Theorem c12_des3_calls : forall key ip iv chunks,
+  8 <= length iv -> Forall (fun c => length c mod 8 = 0) chunks ->
+  fst (ps_des3_encrypt_calls key ip iv chunks) =
+    cbcn_encrypt_spec 8 (ps_des3_encrypt_block (ps_des3_init_key key)) (length (concat chunks) / 8) (firstn 8 iv) (concat chunks) /\
+  fst (ps_des3_decrypt_calls key ip iv chunks) =
+    cbcn_decrypt_spec 8 (ps_des3_decrypt_block (ps_des3_init_key key)) (length (concat chunks) / 8) (firstn 8 iv) (concat chunks).
+Proof. exact ps_des3_calls. Qed.
+Print Assumptions c12_des3_calls.
+
+(* PARTIAL: model = SP 800-67 TDEA-CBC and decrypt o encrypt = id, GIVEN single_des_is_fips46 - the one unproved
+   statement: des3.c's deskey + cookey + desfunc (cooked sub-keys, SP-box network, bit-trick IP/FP) compute the
+   FIPS 46-3 DES of CryptoDes.v.  That hypothesis is tied by 156 known answers in both directions on the concrete
+   functions (CryptoKAT.v: published NBS/FIPS vectors, full variable-plaintext and variable-key sets, weak keys)
+   and by the differential run, where model = spec = library is compared on every case. *)
+Theorem c12_des3_eq_spec_partial : single_des_is_fips46 -> forall key ip iv chunks,
+  length iv = 8 -> Forall (fun c => length c mod 8 = 0) chunks ->
+  fst (ps_des3_encrypt_calls key ip iv chunks) = des3_cbc_encrypt_spec key iv (concat chunks) /\
+  fst (ps_des3_decrypt_calls key ip iv chunks) = des3_cbc_decrypt_spec key iv (concat chunks).
+Proof.
+  exact (fun H key ip iv chunks Hiv Hall =>
+           conj (ps_des3_encrypt_eq_spec H key ip iv chunks Hiv Hall) (ps_des3_decrypt_eq_spec H key ip iv chunks Hiv Hall)).
+Qed.
+Print Assumptions c12_des3_eq_spec_partial.
+
+Theorem c12_des3_roundtrip_partial : single_des_is_fips46 -> forall key ip1 ip2 iv chunks chunks2,
+  length iv = 8 -> good iv -> good (concat chunks) ->
+  Forall (fun c => length c mod 8 = 0) chunks -> Forall (fun c => length c mod 8 = 0) chunks2 ->
+  concat chunks2 = fst (ps_des3_encrypt_calls key ip1 iv chunks) ->
+  fst (ps_des3_decrypt_calls key ip2 iv chunks2) = concat chunks.
+Proof. exact ps_des3_roundtrip. Qed.
+Print Assumptions c12_des3_roundtrip_partial.
+
+(* ---- MD5||SHA-1 (md5sha1.c) and psPkcs5Pbkdf1 (pkcs.c) *)
+Theorem c12_md5sha1_chunks : forall chunks : list (list N),
+  md5sha1_final (fold_left md5sha1_update chunks md5sha1_init) = md5sha1_spec (concat chunks).
+Proof. exact md5sha1_chunks. Qed.
+Print Assumptions c12_md5sha1_chunks.
+
+Theorem c12_pbkdf1_eq : forall pass salt, length salt = 8 -> pbkdf1_md5 pass salt = pbkdf1_md5_spec pass salt.
+Proof. exact pbkdf1_md5_eq. Qed.
+Print Assumptions c12_pbkdf1_eq.
